@@ -450,4 +450,35 @@ example : (match stage demoSpec id with
         && getAssoc r.adj "run_SIZE.20".toList == ["post".toList]
     | .error _ => false) = true := by decide +kernel
 
+/-! ### proved counterexample of the unrestricted statement (known finding C08-name-collision)
+
+Instance names are `step_<labels joined by '.'>`; nothing keeps two combinations that differ in a
+used parameter from rendering to the same string.  `A ∈ {1.2, 1}`, `B ∈ {3, 2.3}` with the labels
+`%%`: the combinations `(1.2, 3)` and `(1, 2.3)` of the step `both` are both called `both_1.2.3`. -/
+def collideSpec : Spec :=
+  { root := "/out".toList, hashWs := false, rlimit := 1,
+    params := [{ key := "A".toList, name := "A".toList, tmpl := some "%%".toList, labels := [],
+                 values := ["1.2".toList, "1".toList] },
+               { key := "B".toList, name := "B".toList, tmpl := some "%%".toList, labels := [],
+                 values := ["3".toList, "2.3".toList] }],
+    steps := [{ name := "pa".toList, cmd := "echo $(A)".toList, restart := [], depends := [],
+                texts := ["echo $(A)".toList], extras := [] },
+              { name := "both".toList, cmd := "echo $(A) $(B)".toList, restart := [], depends := ["pa".toList],
+                texts := ["echo $(A) $(B)".toList], extras := [] }],
+    md5 := [] }
+
+/-- **C08 is false of the code for colliding names**: one instance of `both` for two combinations
+that differ in both parameters; it carries the values of the first, is a child of both instances of
+`pa`, and is gated only by the parent of the second (`pa_1`, whose value of `A` it does not carry). -/
+theorem C08_counterexample_name_collision :
+    (match stage collideSpec id with
+     | .ok r =>
+       r.insts.map (·.name) == ["pa_1.2".toList, "pa_1".toList, "both_1.2.3".toList]
+         && (r.insts.map (·.params)) == [[("A".toList, "1.2".toList)], [("A".toList, "1".toList)],
+              [("A".toList, "1.2".toList), ("B".toList, "3".toList)]]
+         && getAssoc r.adj "pa_1.2".toList == ["both_1.2.3".toList]
+         && getAssoc r.adj "pa_1".toList == ["both_1.2.3".toList]
+         && getAssoc r.deps "both_1.2.3".toList == ["pa_1".toList]
+     | .error _ => false) = true := by decide +kernel
+
 end MaestroVerif.C08
